@@ -359,7 +359,7 @@ def qsPartition (cmp : Nat → Nat → Int) : Nat → Array Nat → Nat → Nat 
 
 /-- `esl_quicksort`: `sorted_at[]` -/
 def quicksort (cmp : Nat → Nat → Int) (n : Nat) : List Nat :=
-  if n == 0 then [] else (qsPartition cmp (n + 1) (Array.range n) 0 (n - 1)).toList
+  if n > 1 then (qsPartition cmp (n + 1) (Array.range n) 0 (n - 1)).toList else List.range n
 
 /-- `sort_doubles_decreasing` -/
 def cmpDecreasing {α} [WNum α] (w : List α) (e1 e2 : Nat) : Int :=
@@ -396,10 +396,17 @@ def idFilterText {α} [WNum α] (maxid : α) (rows : List Row) : List Nat :=
 def idFilterDigital {α} [WNum α] (abc : Abc) (maxid : α) (sortwgt : List α) (rows : List Row) : List Nat :=
   idFilterOrder (Mode.digital abc) maxid rows (quicksort (cmpDecreasing sortwgt) rows.length)
 
-/-! ## esl_msaweight_GSC: esl_dst_{C,X}DiffMx, esl_tree.c cluster_engine (UPGMA), esl_tree_SetCladesizes, two traversals -/
+/-! ## esl_msaweight_GSC: esl_dst_{C,X}DiffMx, esl_tree.c cluster_engine (UPGMA), esl_tree_SetCladesizes, two traversals
 
-def mget {α} [WNum α] (D : Array α) (n r c : Nat) : α := D.getD (r * n + c) (ofNat 0)
-def mset {α} (D : Array α) (n r c : Nat) (v : α) : Array α := D.setIfInBounds (r * n + c) v
+  Representation. The C code keeps the distance matrix compacted in its top-left N×N corner by swapping the two joined
+  rows/columns to the end, and addresses clusters by their current POSITION. The model addresses clusters by IDENTITY:
+  cluster numbers 0..n-1 are the taxa, n+s is the node created in pass s (the C node index is n-2-s), and the distance
+  between two clusters is stored once, in the row of the younger one; rows are only ever appended. What remains of the
+  C positions is the table `act` (position → cluster number), which undergoes exactly the C swaps, so that the minimum
+  search visits the pairs in the C order (ties: first minimum) and every floating-point operation has the C operands in
+  the C order. `D->mx[r][c]` of the C code is `kdist rows act[r] act[c]`. The traversals likewise index by cluster number;
+  `x[]` of the preorder pass becomes an association list (each cluster receives its share from its parent exactly once). -/
+
 def vget {α} [WNum α] (x : Array α) (i : Nat) : α := x.getD i (ofNat 0)
 
 /-- `esl_dst_{C,X}DiffMx` (row-major n×n): 0 on the diagonal, `1. - pid` elsewhere (upper triangle mirrored) -/
@@ -410,159 +417,140 @@ def diffMx {α} [WNum α] (m : Mode) (rows : List Row) : Array α :=
     else if i < j then ofNat 1 - pid m (rows.getD i []) (rows.getD j [])
     else ofNat 1 - pid m (rows.getD j []) (rows.getD i [])).toArray
 
-structure Tree (α : Type) where
-  left : Array Int
-  right : Array Int
-  ld : Array α
-  rd : Array α
-
 /-- `ESL_MAX(0., x)` = `((0.) > (x)) ? (0.) : (x)` -/
 def max0 {α} [WNum α] (x : α) : α := if ltb x (ofNat 0) then ofNat 0 else x
 
-/-- `for (row = 0; row < N; row++) ESL_SWAP(D->mx[row][a], D->mx[row][b], double)` -/
-def swapCols {α} [WNum α] (D : Array α) (n N a b : Nat) : Array α :=
-  (List.range N).foldl (fun D row =>
-    let t := mget D n row a
-    mset (mset D n row a (mget D n row b)) n row b t) D
+/-- distance between two different clusters: entry `x` of row `y` for `x < y` -/
+def kdist {α} [WNum α] (rows : Array (Array α)) (x y : Nat) : α :=
+  if x < y then (rows.getD y #[]).getD x (ofNat 0) else (rows.getD x #[]).getD y (ofNat 0)
 
-/-- `for (col = 0; col < N; col++) ESL_SWAP(D->mx[a][col], D->mx[b][col], double)` -/
-def swapRows {α} [WNum α] (D : Array α) (n N a b : Nat) : Array α :=
-  (List.range N).foldl (fun D col =>
-    let t := mget D n a col
-    mset (mset D n a col (mget D n b col)) n b col t) D
+/-- the upper-triangle positions in the order the C loops `for row.. for col = row+1..` visit them -/
+def upperPairs (N : Nat) : List (Nat × Nat) :=
+  (List.range N).flatMap fun row => (List.range' (row + 1) (N - (row + 1))).map fun col => (row, col)
 
 /-- the minimum search: `minD = D[0][1]; i = 0; j = 1;` then strict `<` over the upper triangle in row-major order -/
-def findMin {α} [WNum α] (D : Array α) (n N : Nat) : α × Nat × Nat :=
-  (List.range N).foldl (fun st row =>
-    (List.range' (row + 1) (N - (row + 1))).foldl (fun st col =>
-      if ltb (mget D n row col) st.1 then (mget D n row col, row, col) else st) st) (mget D n 0 1, 0, 1)
+def kfindMin {α} [WNum α] (rows : Array (Array α)) (act : Array Nat) : α × Nat × Nat :=
+  (upperPairs act.size).foldl (fun st rc =>
+    if ltb (kdist rows (act.getD rc.1 0) (act.getD rc.2 0)) st.1
+    then (kdist rows (act.getD rc.1 0) (act.getD rc.2 0), rc.1, rc.2) else st)
+    (kdist rows (act.getD 0 0) (act.getD 1 0), 0, 1)
 
-structure UState (α : Type) where
-  D : Array α
-  idx : Array Int
-  nin : Array Nat
-  height : Array α
-  left : Array Int
-  right : Array Int
-  ld : Array α
-  rd : Array α
+/-- a tree node: the two clusters joined (left = the one at the lower matrix position) and the branch lengths to them -/
+structure KNode (α : Type) where
+  I : Nat
+  J : Nat
+  l : α
+  r : α
 
-/-- merging rows/columns i = N-2 and j = N-1 under the UPGMA rule, column by column, mirroring each new value -/
-def mergeCols {α} [WNum α] (D : Array α) (n N ni nj : Nat) : Array α :=
-  (List.range N).foldl (fun D col =>
-    let v := (ofNat ni * mget D n (N - 2) col + ofNat nj * mget D n (N - 1) col) / ofNat (ni + nj)
-    mset (mset D n (N - 2) col v) n col (N - 2) v) D
+structure KState (α : Type) where
+  /-- `rows[y][x]`, x < y: distance between clusters x and y -/
+  rows : Array (Array α)
+  /-- `nin[]`, by cluster number -/
+  size : Array Nat
+  /-- `height[]`, by cluster number (0 for taxa) -/
+  hgt : Array α
+  /-- position → cluster number, for the N positions still in use -/
+  act : Array Nat
+  /-- nodes created so far, newest first -/
+  nodes : List (KNode α)
 
-/-- `if (pos != target) { swap columns, swap rows }`: move row/column `pos` to `target` -/
-def moveTo {α} [WNum α] (D : Array α) (n N target pos : Nat) : Array α :=
-  if pos != target then swapRows (swapCols D n N target pos) n N target pos else D
+/-- `ld`/`rd`: the node's height, minus the child's height (clamped at 0) if the child is an internal node -/
+def kbranch {α} [WNum α] (n : Nat) (h : α) (hgt : Array α) (c : Nat) : α :=
+  if c ≥ n then max0 (h - vget hgt c) else h
 
-def moveIdx {β} (a : Array β) (target pos : Nat) : Array β := if pos != target then a.swapIfInBounds pos target else a
+/-- UPGMA rule: `(nin[i] * D[i][col] + nin[j] * D[j][col]) / (double) (nin[i] + nin[j])` -/
+def kmerged {α} [WNum α] (rows : Array (Array α)) (nI nJ I J x : Nat) : α :=
+  (ofNat nI * kdist rows I x + ofNat nJ * kdist rows J x) / ofNat (nI + nJ)
 
-/-- `T->ld[N-2]` resp. `T->rd[N-2]`: height, minus the child's height (clamped at 0) if the child is an internal node -/
-def branchLen {α} [WNum α] (h : α) (height : Array α) (child : Int) : α :=
-  if child > 0 then max0 (h - vget height child.toNat) else h
+/-- `if (pos != target) ESL_SWAP(idx[pos], idx[target])` -/
+def moveIdx (a : Array Nat) (target pos : Nat) : Array Nat := if pos != target then a.swapIfInBounds pos target else a
 
-/-! one pass of the `for (N = D->n; N >= 2; N--)` loop of `cluster_engine` (mode eslUPGMA), `N = n - step`, field by field -/
-section step
-variable {α : Type} [WNum α] (n : Nat) (st : UState α) (step : Nat)
-def stepMin : α × Nat × Nat := findMin st.D n (n - step)
-def stepI : Nat := (stepMin n st step).2.1
-def stepJ : Nat := (stepMin n st step).2.2
+section kstep
+variable {α : Type} [WNum α] (n : Nat) (st : KState α)
+def kMin : α × Nat × Nat := kfindMin st.rows st.act
+def kPosI : Nat := (kMin st).2.1
+def kPosJ : Nat := (kMin st).2.2
+def kI : Nat := st.act.getD (kPosI st) 0
+def kJ : Nat := st.act.getD (kPosJ st) 0
 /-- `height[N-2] = minD / 2.` -/
-def stepH : α := (stepMin n st step).1 / ofNat 2
-def stepHeight : Array α := st.height.setIfInBounds (n - step - 2) (stepH n st step)
-def stepLeft : Int := st.idx.getD (stepI n st step) 0
-def stepRight : Int := st.idx.getD (stepJ n st step) 0
-/-- the matrix after moving j to N-1 and i to N-2 -/
-def stepMoved : Array α :=
-  moveTo (moveTo st.D n (n - step) (n - step - 1) (stepJ n st step)) n (n - step) (n - step - 2) (stepI n st step)
-def stepNin : Array Nat := moveIdx (moveIdx st.nin (n - step - 1) (stepJ n st step)) (n - step - 2) (stepI n st step)
-def stepIdx : Array Int := moveIdx (moveIdx st.idx (n - step - 1) (stepJ n st step)) (n - step - 2) (stepI n st step)
+def kH : α := (kMin st).1 / ofNat 2
+/-- j is moved to position N-1, then i to N-2; the new cluster takes position N-2 and position N-1 falls away -/
+def kAct : Array Nat :=
+  ((moveIdx (moveIdx st.act (st.act.size - 1) (kPosJ st)) (st.act.size - 2) (kPosI st)).setIfInBounds (st.act.size - 2) st.rows.size).pop
+def kRow : Array α :=
+  (Array.range st.rows.size).map (kmerged st.rows (st.size.getD (kI st) 0) (st.size.getD (kJ st) 0) (kI st) (kJ st))
 
-def upgmaStep : UState α :=
-  { D := mergeCols (stepMoved n st step) n (n - step) ((stepNin n st step).getD (n - step - 2) 0) ((stepNin n st step).getD (n - step - 1) 0)
-    idx := (stepIdx n st step).setIfInBounds (n - step - 2) (((n - step : Nat) : Int) - 2)
-    nin := (stepNin n st step).setIfInBounds (n - step - 2)
-             ((stepNin n st step).getD (n - step - 2) 0 + (stepNin n st step).getD (n - step - 1) 0)
-    height := stepHeight n st step
-    left := st.left.setIfInBounds (n - step - 2) (stepLeft n st step)
-    right := st.right.setIfInBounds (n - step - 2) (stepRight n st step)
-    ld := st.ld.setIfInBounds (n - step - 2) (branchLen (stepH n st step) (stepHeight n st step) (stepLeft n st step))
-    rd := st.rd.setIfInBounds (n - step - 2) (branchLen (stepH n st step) (stepHeight n st step) (stepRight n st step)) }
-end step
+/-- one pass of the `for (N = D->n; N >= 2; N--)` loop of `cluster_engine` (mode eslUPGMA) -/
+def kstep : KState α :=
+  { rows := st.rows.push (kRow st)
+    size := st.size.push (st.size.getD (kI st) 0 + st.size.getD (kJ st) 0)
+    hgt := st.hgt.push (kH st)
+    act := kAct st
+    nodes := ⟨kI st, kJ st, kbranch n (kH st) st.hgt (kI st), kbranch n (kH st) st.hgt (kJ st)⟩ :: st.nodes }
+end kstep
 
-def upgmaInit {α} [WNum α] (n : Nat) (D0 : Array α) : UState α :=
-  { D := D0
-    idx := (Array.range n).map fun (i : Nat) => -(Int.ofNat i)
-    nin := Array.replicate n 1
-    height := Array.replicate (n - 1) (ofNat 0)
-    left := Array.replicate (n - 1) 0
-    right := Array.replicate (n - 1) 0
-    ld := Array.replicate (n - 1) (ofNat 0)
-    rd := Array.replicate (n - 1) (ofNat 0) }
+/-- the state `cluster_engine` starts from: distances of `esl_dst_{C,X}DiffMx` (upper triangle as computed there) -/
+def kinit {α} [WNum α] (m : Mode) (rws : List Row) : KState α :=
+  { rows := ((List.range rws.length).map fun y =>
+      ((List.range y).map fun x => (ofNat 1 : α) - pid m (rws.getD x []) (rws.getD y [])).toArray).toArray
+    size := Array.replicate rws.length 1
+    hgt := Array.replicate rws.length (ofNat 0)
+    act := Array.range rws.length
+    nodes := [] }
 
-/-- `cluster_engine(D, eslUPGMA, &T)` on an n×n matrix, n ≥ 2 -/
-def upgma {α} [WNum α] (n : Nat) (D0 : Array α) : Tree α :=
-  let st := (List.range (n - 1)).foldl (upgmaStep n) (upgmaInit n D0)
-  ⟨st.left, st.right, st.ld, st.rd⟩
+def krun {α} [WNum α] (n : Nat) (st : KState α) : Nat → KState α
+  | 0 => st
+  | k + 1 => kstep n (krun n st k)
 
-/-- `esl_tree_SetCladesizes`: i = N-2 down to 0 -/
-def cladesizes {α} (T : Tree α) (n : Nat) : Array Nat :=
-  (List.range (n - 1)).foldl (fun cs k =>
-    let i := n - 2 - k
-    let l := T.left.getD i 0
-    let r := T.right.getD i 0
-    let cs := cs.setIfInBounds i (cs.getD i 0 + (if l ≤ 0 then 1 else cs.getD l.toNat 0))
-    cs.setIfInBounds i (cs.getD i 0 + (if r ≤ 0 then 1 else cs.getD r.toNat 0))) (Array.replicate (n - 1) 0)
+/-- `esl_tree_SetCladesizes`, by cluster number (taxa: 1); `created` = nodes oldest first -/
+def kclades {α} (n : Nat) (created : List (KNode α)) : Array Nat :=
+  created.foldl (fun cs nd => cs.push (cs.getD nd.I 0 + cs.getD nd.J 0)) (Array.replicate n 1)
 
-/-- postorder pass: `x[i] = ld[i] + rd[i] (+ x[left]) (+ x[right])`, i = N-2 down to 0 -/
-def gscUp {α} [WNum α] (T : Tree α) (n : Nat) : Array α :=
-  (List.range (n - 1)).foldl (fun x k =>
-    let i := n - 2 - k
-    let l := T.left.getD i 0
-    let r := T.right.getD i 0
-    let x0 := vget T.ld i + vget T.rd i
-    let x1 := if l > 0 then x0 + vget x l.toNat else x0
-    let x2 := if r > 0 then x1 + vget x r.toNat else x1
-    x.setIfInBounds i x2) (Array.replicate (n - 1) (ofNat 0))
+/-- postorder pass: `x[i] = ld[i] + rd[i] (+ x[left]) (+ x[right])`, children before parents -/
+def kup {α} [WNum α] (n : Nat) (created : List (KNode α)) : Array α :=
+  created.foldl (fun xs nd =>
+    let x0 := nd.l + nd.r
+    let x1 := if nd.I ≥ n then x0 + vget xs nd.I else x0
+    let x2 := if nd.J ≥ n then x1 + vget xs nd.J else x1
+    xs.push x2) (Array.replicate n (ofNat 0))
 
-/-- `lw = T->ld[i]; if (T->left[i] > 0) lw += x[T->left[i]]` (same for the right side with `rd`, `right`) -/
-def sideLen {α} [WNum α] (d : Array α) (child : Array Int) (x : Array α) (i : Nat) : α :=
-  if child.getD i 0 > 0 then vget d i + vget x (child.getD i 0).toNat else vget d i
+/-- what a cluster received from its parent (`x[child] = ...` / `msa->wgt[taxon] = ...`); 0 for the root (`x[0] = 0`) -/
+def lookupD {α} [WNum α] (l : List (Nat × α)) (x : Nat) : α :=
+  match l.find? (fun p => p.1 == x) with
+  | some p => p.2
+  | none => ofNat 0
+
+/-- `lw = T->ld[i]; if (T->left[i] > 0) lw += x[T->left[i]]` -/
+def kside {α} [WNum α] (n : Nat) (xs : Array α) (d : α) (child : Nat) : α :=
+  if child ≥ n then d + vget xs child else d
 
 /-- the share of `x[i]` passed to one child: in proportion to branch weight `mine/(lw+rw)`, or to clade size when
     `lw+rw == 0.` -/
-def share {α} [WNum α] (cs : Array Nat) (child : Array Int) (xi mine total : α) (i : Nat) : α :=
+def kshare {α} [WNum α] (n : Nat) (cs : Array Nat) (child c : Nat) (xi mine total : α) : α :=
   if isZero total then
-    (if child.getD i 0 > 0 then xi * (ofNat (cs.getD (child.getD i 0).toNat 0) / ofNat (cs.getD i 0))
-     else xi / ofNat (cs.getD i 0))
+    (if child ≥ n then xi * (ofNat (cs.getD child 0) / ofNat (cs.getD c 0)) else xi / ofNat (cs.getD c 0))
   else xi * mine / total
 
-/-- `if (child <= 0) msa->wgt[-child] = v; else x[child] = v;` -/
-def putChild {α} (st : Array α × Array α) (child : Int) (v : α) : Array α × Array α :=
-  if child ≤ 0 then (st.1, st.2.setIfInBounds (-child).toNat v) else (st.1.setIfInBounds child.toNat v, st.2)
+/-- one node of the preorder pass (parents before children); state = (shares handed down so far, this node's number) -/
+def kdownStep {α} [WNum α] (n : Nat) (cs : Array Nat) (xs : Array α) (st : List (Nat × α) × Nat) (nd : KNode α) :
+    List (Nat × α) × Nat :=
+  let xi := lookupD st.1 st.2
+  let lw := kside n xs nd.l nd.I
+  let rw := kside n xs nd.r nd.J
+  ((nd.J, kshare n cs nd.J st.2 xi rw (lw + rw) + nd.r) :: (nd.I, kshare n cs nd.I st.2 xi lw (lw + rw) + nd.l) :: st.1,
+   st.2 - 1)
 
-/-- one node of the preorder pass; state = (`x[]`, `msa->wgt[]`) -/
-def gscDownStep {α} [WNum α] (T : Tree α) (cs : Array Nat) (st : Array α × Array α) (i : Nat) : Array α × Array α :=
-  let lw := sideLen T.ld T.left st.1 i
-  let rw := sideLen T.rd T.right st.1 i
-  let xi := vget st.1 i
-  let lx := share cs T.left xi lw (lw + rw) i
-  let rx := share cs T.right xi rw (lw + rw) i
-  putChild (putChild st (T.left.getD i 0) (lx + vget T.ld i)) (T.right.getD i 0) (rx + vget T.rd i)
-
-/-- the two traversals of `esl_msaweight_GSC`; result = `msa->wgt[]` before the final normalisation
-    (`msa->wgt[]` holds 1.0 on entry in the harness; every entry is overwritten for a well-formed tree) -/
-def gscTraverse {α} [WNum α] (T : Tree α) (n : Nat) : Array α :=
-  let cs := cladesizes T n
-  let x := (gscUp T n).setIfInBounds 0 (ofNat 0)
-  ((List.range (n - 1)).foldl (gscDownStep T cs) (x, Array.replicate n (ofNat 1))).2
+/-- `nodes` newest (root) first -/
+def kdown {α} [WNum α] (n : Nat) (cs : Array Nat) (xs : Array α) (nodes : List (KNode α)) : List (Nat × α) :=
+  (nodes.foldl (kdownStep n cs xs) ([], n + nodes.length - 1)).1
 
 /-- `msa->wgt[0..nseq-1]` before the final normalisation -/
 def gscRaw {α} [WNum α] (m : Mode) (rows : List Row) : List α :=
-  let w := gscTraverse (upgma rows.length (diffMx (α := α) m rows)) rows.length
-  (List.range rows.length).map (vget w)
+  let n := rows.length
+  let st := krun n (kinit (α := α) m rows) (n - 1)
+  let created := st.nodes.reverse
+  let above := kdown n (kclades n created) (kup n created) st.nodes
+  (List.range n).map (lookupD above)
 
 def gsc {α} [WNum α] (m : Mode) (rows : List Row) : List α :=
   if rows.length == 1 then [ofNat 1] else normalizeToN (gscRaw m rows)
